@@ -69,7 +69,7 @@ def plan(tier, seed):
             # the result of the row-major grid - flat views / ravel() of such arrays are copies, order='K' walks memory order
             if cc != 'heavy':
                 jobs.append(dict(base, kind='reshape', shape=[2, 2], shape2=[2, 2], layout='F'))
-                if tier == 'thorough':
+                if tier == 'thorough' and cc == 'cheap':
                     jobs.append(dict(base, kind='reshape', shape=[3, 2], shape2=[3, 2], layout='F'))
     seen, out = set(), []
     for j in jobs:
